@@ -161,6 +161,13 @@ def check_replicas(name, seed=0, result=None):
     r = result or sessions.record(name, seed)
     bad = []
     if not r.get('completed'):
+        # Four bundled clients against the table manager: a client that stops with an error of its own (not a connection
+        # that the other end closed) has rejected something the table manager accepted, or failed to follow the board
+        own = {k: v for k, v in (r.get('clients') or {}).items()
+               if isinstance(v, str) and v.startswith('exception: ') and not any(
+                   t in v for t in ('ConnectionError', 'ConnectionResetError', 'BrokenPipeError', 'ConnectionAbortedError', 'OSError', 'timeout'))}
+        if own and not r.get('server_exc'):
+            return [f'bundled client stopped with its own error while the table manager went on: {own}'], r
         return ['session did not complete'], r
     if any(v != 'End of session' for k, v in r['clients'].items()):
         bad.append(f'a bundled client did not complete the session: {r["clients"]}')
